@@ -22,12 +22,15 @@ PROP = dict(
              quick=182637, thorough=0, scalable=False, exhaustive=True, leaks=True, shard_timeout=240, case_timeout=15),
         dict(name="exhaustive-depth4", harness=_H, flavour="asan", mode="exhaustive4", args=_A + ["--depth", "4"],
              quick=0, thorough=5227560, scalable=False, exhaustive=True, leaks=True, shard_timeout=6000, case_timeout=15),
+        dict(name="exhaustive-cond", harness=_H, flavour="asan", mode="exhaustive-cond", args=_A,
+             quick=106760, thorough=106760, scalable=False, exhaustive=True, leaks=True, shard_timeout=240, case_timeout=15),
         dict(name="directed", harness=_H, flavour="asan", mode="directed", args=_A,
-             quick=40, thorough=40, scalable=False, leaks=True, shard_timeout=120, case_timeout=15, min_shard=40),
+             quick=48, thorough=48, scalable=False, leaks=True, shard_timeout=120, case_timeout=15, min_shard=48),
     ],
     rule=("random: a fresh Loop + Scheduler, 1-2 channels / mutexes / semaphores (initial 0-2), a broadcast, 1-2 conditions (All/Any, one "
           "designated waiter each), 1-8 routine scripts of 1-8 steps over yield, wait, send (1-3 values back-to-back), receive, lock..unlock "
-          "(with 0-2 possibly blocking steps in between), acquire, release, broadcast wait/post, condition add/wait/post, join, create "
+          "(with 0-2 possibly blocking steps in between), acquire, release, broadcast wait/post, condition add / wait / post as separate steps "
+          "(the waiter gives up the CPU 0-2 times between add() and wait(), so posts land before, between and after), join, create "
           "(run now / later), cancel, resume; a quarter of the scripts ignore cancellation and carry on to their end, a quarter do not "
           "unlock on the way out; 30% of the cases are mixed, the others concentrate on one primitive family so that several "
           "routines contend for one object. The main context runs from a loop callback: 0-6 actions (resume, cancel, send, release, post, "
@@ -36,8 +39,9 @@ PROP = dict(
           "trace only and the safety clauses, the idle invariant (checked at every point where two whole loop passes ran no routine step) "
           "and the cancel/cleanup/join clauses are decided on it. exhaustive: every combination of 1-3 routines x 1-3 (thorough: 1-4) steps "
           "over {send,receive,yield}, {lock,unlock,yield}, {acquire,release,yield} (3 x 60 879 cases; thorough 3 x 1 742 520), run to idle, "
-          "checked, cleaned up. directed: 20 hand-written histories (two waiters released by back-to-back posts, woken waiter loses the "
-          "race, cancelled waiter in the queue, cancel/cleanup with a routine blocked in every kind of call, join shapes), each with both "
+          "checked, cleaned up. exhaustive-cond: one Condition (All / Any), the waiter runs every script of 1-4 steps over {add 1, add 2, wait, "
+          "yield} and 0-2 posters every script of 1-2 steps over {post 1, post 2, yield} (106 760 cases). directed: 24 hand-written histories (two waiters released by back-to-back posts, woken waiter loses the "
+          "race, cancelled waiter in the queue, cancel/cleanup with a routine blocked in every kind of call, join shapes, condition posts between add() and wait()), each with both "
           "orders of the first loop pass. A case is non-trivial when at least two routines were really suspended inside a blocking call and "
           "at least one of them was woken through a primitive (exhaustive: one and one); distinct = distinct hashes of (objects, all "
           "scripts, main program)"),
@@ -46,7 +50,9 @@ PROP = dict(
         "mutexes they hold when the script says it uses Mutex::Locker), the others ignore cancellation and run on to their end; a "
         "cancelled routine creates no new routine (create() inside cleanup()'s sweep is treated as misuse)",
         "each Condition has one designated waiter that alone calls add()/wait() (the header says it supports a single waiter); any "
-        "context may post()",
+        "context may post(); a listed value posted after add() counts as posted whether or not the waiter is inside wait() yet: once "
+        "every added value (All) / any added value (Any) has been posted the waiter must have been resumed, or wait() must not block "
+        "(the code returns false at once then; the return value is not judged)",
         "resume() is called on arbitrary routines, also ones suspended inside a primitive (a spurious wake-up): the anchors say waiters "
         "re-check in a loop; Broadcast::wait / Condition::wait returning early because of such a resume is not held against the "
         "property (it only demands that posted waiters are resumed), join() returning true early is (the property says join returns "
@@ -80,6 +86,8 @@ PROP = dict(
         # broadcast / condition
         "bcast_post_with_two_or_more_waiters", "bcast_waiter_resumed", "cond_all_satisfied_with_waiter", "cond_any_satisfied_with_waiter",
         "cond_waiter_resumed",
+        "cond_post_between_add_and_wait", "cond_wait_called_after_early_partial_post", "cond_waiter_resumed_after_early_post",
+        "cond_wait_returned_immediately_already_satisfied",
         # join, cancel, cleanup
         "join_blocked_then_target_finished", "cancel_of_blocked_routine", "cancel_blocked_call_returned_failure",
         "cancel_of_unstarted_routine", "cleanup_with_blocked_routines", "cleanup_with_unstarted_routines",
